@@ -8,6 +8,13 @@ ROOT = os.path.dirname(os.path.dirname(os.path.abspath(__file__)))
 
 # id -> (category, technique, text, note, design_ref)
 CHECKS = {
+    "C03": (
+        "exploration",
+        "reference-interpreter monitor on binding-site-identifying output (every bound value names its binding site), two page contexts per program (2-run non-interference), caller-Context snapshot monitor; listed findings attributed by exact or token-level defect models",
+        "12k (quick) / 150k (thorough) E1 programs in the scope flavour (x/y/z bound by page context, component data, with/for around tags, between tag and fill and inside templates, kwargs, slot-data aliases, `only`) are rendered in both modes with two page contexts; every printed variable must show the binding the statement selects; the caller's Context (layers and render-context depth) must be unchanged after each top-level render. Four defects of the pinned tree are listed findings (loop layer forwarded into isolated components; `only`+django hides outer variables from fills; {{ default }} content sees the fill's captured layer; placement of the fill's captured layer) with mechanism-keyed classifiers; any other mismatch is a violation.",
+        "Reads the statement leaves open (with between tag and fill in isolated mode; names bound by intermediate components / around the slot in django mode) are not judged; see DESIGN.md §4.",
+        "DESIGN.md §2 C03, Appendix A/B",
+    ),
     "C06": (
         "fault_enumeration",
         "failpoint enumeration over every user-callback invocation of every generated program, with an exception-class monitor, weakref liveness sentinels, a reflection-based container census, follow-up renders and a steady-state growth monitor",
